@@ -2,6 +2,7 @@ package main
 
 import (
 	"fmt"
+	"runtime"
 	"strings"
 
 	"simrt"
@@ -112,6 +113,111 @@ func scaleProject(shape string, n int) *Project {
 		for i := 0; i < n; i++ {
 			fmt.Fprintf(&sb, "    line %d of the text\n", i)
 		}
+	case "path-params":
+		// ONE path with n parameters
+		sb.WriteString("GET ")
+		for i := 0; i < n; i++ {
+			fmt.Fprintf(&sb, "/{p%d}", i)
+		}
+		sb.WriteString("\n  200 any\n")
+	case "path-segments":
+		sb.WriteString("GET ")
+		for i := 0; i < n; i++ {
+			fmt.Fprintf(&sb, "/s%d", i)
+		}
+		sb.WriteString("\n  200 any\n")
+	case "one-tags-directive":
+		for i := 0; i < n; i++ {
+			fmt.Fprintf(&sb, "TAG @t%d\n", i)
+		}
+		sb.WriteString("GET /p\n  Tags")
+		for i := 0; i < n; i++ {
+			fmt.Fprintf(&sb, " @t%d", i)
+		}
+		sb.WriteString("\n  200 any\n")
+	case "enum-values":
+		sb.WriteString("ENUM @e\n  [\n")
+		for i := 0; i < n; i++ {
+			c := ","
+			if i == n-1 {
+				c = ""
+			}
+			fmt.Fprintf(&sb, "    \"v%d\"%s\n", i, c)
+		}
+		sb.WriteString("  ]\nGET /p\n  200\n    \"v1\" // {enum: @e}\n")
+	case "array-items":
+		sb.WriteString("GET /p\n  200\n    [\n")
+		for i := 0; i < n; i++ {
+			c := ","
+			if i == n-1 {
+				c = ""
+			}
+			fmt.Fprintf(&sb, "      %d%s\n", i, c)
+		}
+		sb.WriteString("    ]\n")
+	case "or-types":
+		for i := 0; i < n; i++ {
+			fmt.Fprintf(&sb, "TYPE @o%d\n  {\"a%d\": %d}\n", i, i, i)
+		}
+		sb.WriteString("GET /p\n  200\n    @o0")
+		for i := 1; i < n; i++ {
+			fmt.Fprintf(&sb, " | @o%d", i)
+		}
+		sb.WriteString("\n")
+	case "allof-list":
+		for i := 0; i < n; i++ {
+			fmt.Fprintf(&sb, "TYPE @o%d\n  {\"a%d\": %d}\n", i, i, i)
+		}
+		sb.WriteString("GET /p\n  200\n    { // {allOf: [")
+		for i := 0; i < n; i++ {
+			if i > 0 {
+				sb.WriteString(", ")
+			}
+			fmt.Fprintf(&sb, "\"@o%d\"", i)
+		}
+		sb.WriteString("]}\n      \"z\": 1\n    }\n")
+	case "servers":
+		for i := 0; i < n; i++ {
+			fmt.Fprintf(&sb, "SERVER @s%d // server %d\n  BaseUrl \"https://s%d.example.com\"\n", i, i, i)
+		}
+		sb.WriteString("GET /p\n  200 any\n")
+	case "query-props":
+		sb.WriteString("GET /p\n  Query \"a=1\"\n    {\n")
+		for i := 0; i < n; i++ {
+			c := ","
+			if i == n-1 {
+				c = ""
+			}
+			fmt.Fprintf(&sb, "      \"q%d\": %d%s\n", i, i, c)
+		}
+		sb.WriteString("    }\n  200 any\n")
+	case "header-props":
+		sb.WriteString("POST /p\n  Request\n    Headers\n      {\n")
+		for i := 0; i < n; i++ {
+			c := ","
+			if i == n-1 {
+				c = ""
+			}
+			fmt.Fprintf(&sb, "        \"X-H%d\": \"%d\"%s\n", i, i, c)
+		}
+		sb.WriteString("      }\n    Body any\n  200 any\n")
+	case "long-annotation":
+		sb.WriteString("GET /p // " + strings.Repeat("word ", n) + "\n  200 any\n")
+	case "blank-lines":
+		sb.WriteString(strings.Repeat("\n", n*4) + "GET /p\n  200 any\n")
+	case "comment-lines":
+		for i := 0; i < n; i++ {
+			fmt.Fprintf(&sb, "# comment %d\n", i)
+		}
+		sb.WriteString("GET /p\n  200 any\n")
+	case "urls-with-methods":
+		for i := 0; i < n; i++ {
+			fmt.Fprintf(&sb, "URL /u%d/{id}\n  Path\n    {\"id\": %d}\n  GET\n    200 any\n  DELETE\n    200 any\n", i, i)
+		}
+	case "similar-paths":
+		for i := 0; i < n; i++ {
+			fmt.Fprintf(&sb, "GET /x%d/{a}/y\n  200 any\n", i)
+		}
 	case "one-big-body":
 		sb.WriteString("GET /p\n  200\n    {\n")
 		for i := 0; i < n; i++ {
@@ -129,13 +235,17 @@ func scaleProject(shape string, n int) *Project {
 	return p
 }
 
-var scaleShapes = []string{"tags", "methods", "methods-with-bodies", "types-independent", "types-chain", "includes-flat", "include-same-file", "pastes", "macros", "description-text", "one-big-body", "types-star", "allof-chain", "macro-chain", "responses", "rpc-methods", "tags-on-methods", "methods-using-one-type", "macro-doubling", "include-doubling"}
+var scaleShapes = []string{"tags", "methods", "methods-with-bodies", "types-independent", "types-chain", "includes-flat", "include-same-file", "pastes", "macros", "description-text", "one-big-body", "types-star", "allof-chain", "macro-chain", "responses", "rpc-methods", "tags-on-methods", "methods-using-one-type", "macro-doubling", "include-doubling",
+	"path-params", "path-segments", "one-tags-directive", "enum-values", "array-items", "or-types", "allof-list", "servers", "query-props", "header-props", "long-annotation", "blank-lines", "comment-lines", "urls-with-methods", "similar-paths"}
 
 // scaleSizes: n and 4n per shape (the doubling shapes are exponential in the real code: 4 and 16
 // are enough to show it and small enough to finish).
 func scaleSizes(shape string) [2]int {
 	if strings.HasSuffix(shape, "-doubling") {
 		return [2]int{4, 16}
+	}
+	if shape == "path-params" || shape == "path-segments" {
+		return [2]int{200, 800} // one line: the fixed cost of a build hides the trend at 50
 	}
 	return [2]int{50, 200}
 }
@@ -202,23 +312,39 @@ func depthProject(shape string, n int) *Project {
 	return p
 }
 
+// totalAlloc: bytes allocated so far by this process (cumulative). The second work measure of
+// the scaling phase: quadratic work done inside the standard library (strings.Join / Split over
+// growing prefixes, repeated copies) passes no seam but allocates.
+func totalAlloc() uint64 {
+	var m runtime.MemStats
+	runtime.ReadMemStats(&m)
+	return m.TotalAlloc
+}
+
 func scaletestMain() {
 	canonicalEnv()
 	for _, sh := range scaleShapes {
 		var row []string
-		var prev uint64
+		var prev, prevAlloc uint64
 		for _, n := range scaleSizes(sh) {
 			p := scaleProject(sh, n)
 			must(Materialise(p.Files))
 			simrt.ResetOps()
+			a0 := totalAlloc()
 			o := BuildPath(projDir + "/" + p.Root)
+			al := totalAlloc() - a0
 			ops := simrt.Ops()
 			r := ""
 			if prev > 0 {
 				r = fmt.Sprintf(" (x%.1f)", float64(ops)/float64(prev))
 			}
 			prev = ops
-			row = append(row, fmt.Sprintf("n=%d %s ops=%d%s", n, o.Class(), ops, r))
+			ra := ""
+			if prevAlloc > 0 {
+				ra = fmt.Sprintf(" (x%.1f)", float64(al)/float64(prevAlloc))
+			}
+			prevAlloc = al
+			row = append(row, fmt.Sprintf("n=%d %s ops=%d%s alloc=%dK%s", n, o.Class(), ops, r, al>>10, ra))
 		}
 		fmt.Printf("%-22s %s\n", sh, strings.Join(row, " | "))
 	}
